@@ -41,8 +41,9 @@ type pipeCase struct {
 			T string `json:"t"`
 			V string `json:"v"`
 		} `json:"up"`
-		Ct  string `json:"ct"`
-		Krb bool   `json:"krb"`
+		Ct   string `json:"ct"`
+		Krb  bool   `json:"krb"`
+		Name string `json:"name"` // "" / "plain": an ordinary instance name; "odd": one with blanks, parentheses and a comma
 	} `json:"cfg"`
 	Req struct {
 		Kind string `json:"kind"`
@@ -368,6 +369,9 @@ func pipeHostOf(c *pipeCase, alias string) string {
 
 func pipeFwdCfg(c *pipeCase, host string) fwdCfg {
 	fc := fwdCfg{Name: "fwd", Localhost: c.Cfg.Lh, TimeFrame: c.Cfg.Tf, Kerberos: c.Cfg.Krb}
+	if c.Cfg.Name == "odd" {
+		fc.Name = "fwd (eu, west)"
+	}
 	if c.Cfg.Tf == "off" {
 		fc.TimeFrame = ""
 	}
@@ -471,8 +475,10 @@ func (pe *pipeEnv) learnTag() error {
 	for _, h := range pe.log.snapshot() {
 		if h.Kind == "request" && h.Msg != nil {
 			if v := h.Msg.first("Via"); v != "" {
-				p := strings.Fields(v)
-				pe.tag = p[len(p)-1]
+				// the element as this instance writes it (the priming request carried no Via): everything after the version
+				if i := strings.IndexByte(v, ' '); i > 0 {
+					pe.tag = strings.TrimSpace(v[i+1:])
+				}
 			}
 		}
 	}
@@ -862,7 +868,11 @@ func (pe *pipeEnv) runCase(c *pipeCase) map[string]any {
 				if pe.tag == "" && strings.HasPrefix(last, ver+" fwd-") {
 					pe.tag = strings.TrimPrefix(last, ver+" ") // learnt late (the priming request could not be forwarded)
 				}
-				ok = last == ver+" "+pe.tag && len(pe.tag) == len("fwd-")+20
+				ok = last == ver+" "+pe.tag && (c.Cfg.Name == "odd" || len(pe.tag) == len("fwd-")+20)
+				// one well-formed element: a pseudonym without separators (RFC 9110 7.6.3)
+				if ok && strings.ContainsAny(pe.tag, " \t,()") {
+					ok = false
+				}
 			}
 			if !ok {
 				fail(fmt.Sprintf("Via at the hop is %q, expected %q + %q", got, cv, ver+" "+pe.tag))
